@@ -36,7 +36,14 @@ Definition on_ob3 (k : trk) (o : obs) (x : m3) : option m3 :=
   | _ => Some x
   end.
 
-Definition ok (c : case) : bool :=
+(* part 1: the call-set sub-monitor (Case_Buffer.csets), proved complete and sound *)
+Definition ok_csets (c : case) : bool :=
+  match c with
+  | Case T evs observed => match csets None (concat observed) with Some _ => true | None => false end
+  end.
+
+(* part 2: the walk *)
+Definition ok_walk (c : case) : bool :=
   match c with
   | Case T evs observed =>
       match walk m3 on_ev3 on_ob3 evs observed trk0 m3_0 with
@@ -48,6 +55,8 @@ Definition ok (c : case) : bool :=
           (if own_thread evs && nodupb (offered_args k) then nodupb (concat (oksets x)) else true)
       end
   end.
+
+Definition ok (c : case) : bool := ok_csets c && ok_walk c.
 
 Definition nontrivial (c : case) : bool :=
   match c with
